@@ -184,6 +184,10 @@ def run_validate(c, res):
     from wormhole.errors import KeyFormatError
     np_, words = c["np"], c["words"]
     code = np_ + "-" + words
+    if c["how"] == "set_code":
+        # in a code the nameplate is what precedes the FIRST hyphen: a generated "nameplate" that contains one
+        # ("0-") just yields the nameplate "0" and a password starting with a hyphen - a well-formed code
+        np_ = code.split("-", 1)[0]
     ascii_ok = ref_valid_nameplate(np_)
     unicode_digits = (not ascii_ok) and len(np_) > 0 and all(unicodedata.category(ch) == "Nd" for ch in np_)
     W = World(b"c19v" + code.encode("utf-8", "surrogatepass"))
